@@ -201,7 +201,8 @@ class ListTree:
             else:
                 pattern_parts.append(re.escape(part))
         pattern = '^' + ''.join(pattern_parts) + '$'
-        return re.compile(pattern), re.compile(pattern, re.IGNORECASE)
+        return (re.compile(pattern, re.DOTALL),
+                re.compile(pattern, re.DOTALL | re.IGNORECASE))
 
     def list_matching(self, ref_name: str, filter_: str) \
             -> Iterable[ListEntry]:
